@@ -56,10 +56,16 @@ func negotiate(s *server.Server, sid string) error {
 	if err := s.VerifNewClient(sid); err != nil {
 		return err
 	}
+	// (a Modify RPC that ends with an error removes its session, as the handler does)
 	if _, err := s.VerifCheckParams(sid, params, false); err != nil {
+		s.VerifDeleteClient(sid)
 		return err
 	}
-	return s.VerifUpdateParams(sid, params)
+	if err := s.VerifUpdateParams(sid, params); err != nil {
+		s.VerifDeleteClient(sid)
+		return err
+	}
+	return nil
 }
 
 // --- election linearizability (C05) -----------------------------------------------------------------------------
@@ -400,6 +406,29 @@ func getAll(s *server.Server, stub *wire.Stub) {
 	rt.Emit("get-done", n)
 }
 
+// afterwards is the epilogue of every scenario on a server: once all calls have returned, a fresh session must still
+// be able to negotiate, take the primary role with a higher id, program both network instances, read everything
+// and flush. A lock or goroutine that one of the concurrent calls left behind is a deadlock here.
+func afterwards(s *server.Server) {
+	rt.Quiesce()
+	const sid = "afterwards"
+	if err := negotiate(s, sid); err != nil {
+		rt.Emit("afterwards-error", "negotiate: "+err.Error())
+		return
+	}
+	top := ID{Hi: 9, Lo: 9}
+	if _, err := s.VerifRunElection(sid, top.Proto()); err != nil {
+		rt.Emit("afterwards-error", "election: "+err.Error())
+		return
+	}
+	doModify(s, sid, stamped(901, D, spb.AFTOperation_ADD, ribx.NHEntry(90, "9.0.0.1"), top), stamped(902, V, spb.AFTOperation_ADD, ribx.NHEntry(90, "9.0.0.2"), top))
+	getAll(s, wire.New(s))
+	if _, err := s.Flush(context.Background(), &spb.FlushRequest{NetworkInstance: &spb.FlushRequest_All{All: &spb.Empty{}}, Election: &spb.FlushRequest_Id{Id: top.Proto()}}); err != nil {
+		rt.Emit("afterwards-error", "flush: "+err.Error())
+	}
+	s.VerifDeleteClient(sid)
+}
+
 func scenarios() []scenario {
 	one := ID{Lo: 1}
 	nh1, nh2 := ribx.NHEntry(1, "1.1.1.1"), ribx.NHEntry(2, "2.2.2.2")
@@ -413,9 +442,17 @@ func scenarios() []scenario {
 			panic(err)
 		}
 	}
-	basic := func(x *rt.Exec) []mc.Fail { return liveness(x) }
+	basic := func(x *rt.Exec) []mc.Fail {
+		fs := liveness(x)
+		for _, e := range x.Events {
+			if e.Label == "afterwards-error" {
+				fs = append(fs, mc.Fail{Sig: "C11/server-unusable-after-concurrent-calls/" + strings.SplitN(e.Val.(string), ":", 2)[0], What: "after all concurrent calls returned a fresh session failed at " + e.Val.(string)})
+			}
+		}
+		return fs
+	}
 	foldCheck := func(x *rt.Exec) []mc.Fail {
-		if fs := liveness(x); len(fs) > 0 {
+		if fs := basic(x); len(fs) > 0 {
 			return fs
 		}
 		// quiescent consistency: the final contents (emitted by the body) equal the fold of the acknowledged ops
@@ -452,9 +489,9 @@ func scenarios() []scenario {
 				rt.Emit("flush", fmt.Sprint(err))
 			})
 			wg.Wait()
-			rt.Quiesce()
+			afterwards(s)
 		}, check: func(x *rt.Exec) []mc.Fail {
-			if fs := liveness(x); len(fs) > 0 {
+			if fs := basic(x); len(fs) > 0 {
 				return fs
 			}
 			var out []mc.Fail
@@ -487,6 +524,7 @@ func scenarios() []scenario {
 			rt.Go("disconnect", func() { defer wg.Done(); s.VerifDeleteClient("old") })
 			wg.Wait()
 			_ = s.VerifSessions()
+			afterwards(s)
 		}, check: basic},
 		{name: "S4-flush-with-id-vs-announce", body: func() {
 			s := newServer()
@@ -507,6 +545,7 @@ func scenarios() []scenario {
 				rt.Emit("announced", fmt.Sprint(err))
 			})
 			wg.Wait()
+			afterwards(s)
 		}, check: basic},
 		{name: "S5-primary-vs-non-primary-same-key", body: func() {
 			s := newServer()
@@ -539,6 +578,7 @@ func scenarios() []scenario {
 			want.Apply(ribx.Op(2, D, spb.AFTOperation_ADD, g1))
 			want.Apply(ribx.Op(3, D, spb.AFTOperation_ADD, v4))
 			rt.Emit("final-fold", want.Canon())
+			afterwards(s)
 		}, check: foldCheck},
 		{name: "S6-rib-add-delete-with-resolved-entry-hook", body: func() {
 			hook := func(ribs map[string]*aft.RIB, ot constants.OpType, ni string, a constants.AFT, key any, _ ...rib.ResolvedDetails) {
@@ -559,7 +599,7 @@ func scenarios() []scenario {
 			rt.Go("delete", func() { defer wg.Done(); r.DeleteEntry(D, ribx.Op(4, D, spb.AFTOperation_DELETE, v4)) })
 			rt.Go("add-nh", func() { defer wg.Done(); r.AddEntry(D, ribx.Op(5, D, spb.AFTOperation_ADD, nh2)) })
 			wg.Wait()
-			rt.Quiesce()
+			afterwards(s)
 		}, check: basic},
 		{name: "S9-deletes-vs-flush-vs-get", body: func() {
 			s := newServer()
@@ -584,7 +624,7 @@ func scenarios() []scenario {
 			})
 			rt.Go("get", func() { defer wg.Done(); getAll(s, stub) })
 			wg.Wait()
-			rt.Quiesce()
+			afterwards(s)
 		}, check: basic},
 		{name: "S8-contents-vs-cross-instance-flush-vs-add-network-instance", body: func() {
 			s := newServer()
@@ -638,6 +678,7 @@ func scenarios() []scenario {
 			rt.Quiesce()
 			// afterwards every instance must still be writable
 			doModify(s, "p", stamped(21, V, spb.AFTOperation_ADD, ribx.NHEntry(4, "4.4.4.4"), one), stamped(22, D, spb.AFTOperation_ADD, ribx.NHEntry(4, "4.4.4.4"), one))
+			afterwards(s)
 		}, check: basic},
 		{name: "S7-add-network-instance-vs-get-flush", body: func() {
 			s := newServer()
@@ -655,7 +696,7 @@ func scenarios() []scenario {
 				rt.Emit("flush", fmt.Sprint(err))
 			})
 			wg.Wait()
-			rt.Quiesce()
+			afterwards(s)
 		}, check: basic},
 	}
 }
